@@ -6,6 +6,8 @@ import IrVerif.Lemmas.Extract
 import IrVerif.Lemmas.Implicit
 import IrVerif.Lemmas.ExtractEval
 import IrVerif.Lemmas.ExtractClone
+import IrVerif.Lemmas.ExtractHyp
+import IrVerif.Props.C13
 set_option linter.unusedSimpArgs false
 namespace IrVerif.Extract
 
@@ -17,13 +19,19 @@ theorem walkFinal_inv (W : World) (fn : Bool) (I O : List VId) (p : GId) :
     Inv W p fn I O (walkFinal W fn I O p) :=
   walk_inv _ (walkInit_inv W p fn I O)
 
-/-- **C18_external_exact**: `_collect_all_external_values(parent, g)` (with the D47 fix) is exactly the set of
-    values that are used by a node of `g` or of a graph nested in `g` at any depth and that come from outside
-    `g`: their owning graph is `parent`, or it is neither `g` nor a graph nested in `g`. -/
-theorem C18_external_exact (W : World) (p : GId) (g : GraphT) (v : VId) :
-    v ∈ externalValues W p g ↔
-      UsedInG g v ∧ (W.graphOf v = some p ∨ ∀ k, NestedIn g k → W.graphOf v ≠ some k) :=
-  mem_externalValues
+/-- **C18_external_free**: when the `.graph` back pointers are consistent with the structure on the subtree of
+    the nested graph `b` and the region's graph is not nested in `b`, `_collect_all_external_values(parent, b)`
+    (with the D47 fix) is exactly the set of free variables of `b` in the structural sense: read by a node of
+    `b` or of a graph nested in `b`, and defined (graph input, initializer, node output) neither in `b` nor in
+    a graph nested in `b`.  The right-hand side consults no back pointer. -/
+theorem C18_external_free (W : World) (p : GId) (b : GraphT) (v : VId)
+    (hb : BackPtrOK W b) (hp : ¬ NestedIn b p) :
+    v ∈ externalValues W p b ↔ FreeOf b v := by
+  rw [mem_externalValues]
+  unfold FreeOf
+  constructor
+  · rintro ⟨h1, h2⟩; exact ⟨h1, (outside_iff_not_def hb hp).mp h2⟩
+  · rintro ⟨h1, h2⟩; exact ⟨h1, (outside_iff_not_def hb hp).mpr h2⟩
 
 /-- **C18_values_exact**: the walk visits exactly the boundary inputs and the required values (the least
     set containing the uncut outputs and closed under "needed by the producer of a required value, unless
@@ -83,6 +91,15 @@ theorem C18_nodes_exact {W : World} {fn : Bool} {g I O : List VId} {p : GId} {ns
     n ∈ ns ↔ NeedN W p I O n := by
   obtain ⟨_, _, h3, _⟩ := findSubgraph_ok h
   rw [h3, mem_sortByKey, walkFinal_nodes]
+
+/-- **C18_nodes_exact_free**: the same with the required set defined from the structure alone (`ReachS`:
+    a node needs its inputs and the free variables of its graph attributes; no `.graph` back pointer), when
+    the back pointers of the graph attributes of the table's nodes are consistent (`BodiesPtrOK`, decidable:
+    `backPtrB`) — so a wrong owner filter in the code would make this theorem fail for the model. -/
+theorem C18_nodes_exact_free {W : World} {fn : Bool} {g I O : List VId} {p : GId} {ns : List NId}
+    {ws : List VId} (h : findSubgraph W fn g I O p = .ok (ns, ws)) (hptr : ∀ n, BodiesPtrOK W p n)
+    (n : NId) : n ∈ ns ↔ NeedNS W I O n := by
+  rw [C18_nodes_exact h n, needN_iff_struct hptr n]
 
 /-- **C18_order**: the extracted nodes are the nodes of the graph-like object restricted to the required
     ones, in their original order (so the result is a sublist of the source's node list). -/
@@ -208,24 +225,35 @@ theorem C18_raises_iff (W : World) (fn : Bool) (g I O : List VId) (p : GId) :
     exact ⟨⟨fun _ => hUn, fun _ => rfl⟩, ⟨fun h => (by cases h), fun h => absurd hUn h.1⟩,
       ⟨fun ⟨r, h⟩ => (by cases h), fun h => absurd hUn h.1⟩⟩
 
-/-- **C18_eval**: for every type of values, every interpretation `F` of the operators that reads only what a
-    node needs (`Local`: its inputs and the values its nested graphs capture), every initial environment
-    `env0` of the source and every environment `env1` of the extracted graph that agrees with the source's
-    values on the boundary inputs and on the initializers handed to the result: running the extracted node
-    list gives, at every requested output, the value the source computes there.  The source list must be
-    single-assignment and topologically sorted with consistent `producer()` pointers (`SourceOK`), and every
-    required value without a producer must be an initializer (`hcov`; for direct inputs of kept nodes this is
-    what the frontier validation enforces, for values captured by nested graphs and for outputs it is what
-    the clone of the view enforces, see `C18_cover_of_clone`). -/
+/-- **C18_eval**: for every type of values and every semantics `S` (an arbitrary function per node of the
+    denotations of its graph attributes and of its input values, plus the constants of the initializers; a
+    nested graph is evaluated under the environment of its enclosing scopes), every initial environment `env0`
+    of the source in which initializers hold their constants, and every environment `env1` of the extracted
+    graph that holds the source's values at the boundary inputs and the constants at the initializers handed
+    to the result (and anything elsewhere): running the extracted node list — never overwriting the rewired
+    boundary inputs `fz ⊆ I` — gives at every requested output the value the source computes there.
+    Hypotheses: the source list is single-assignment, topologically sorted, with consistent `producer()`
+    pointers, and produces no initializer (`SourceOK`, `hInit`; decidable: `sourceOKB`); what the lexical
+    scoping of the semantics lets a node read is covered by what the code collects (`CapturesCover`; follows
+    from closed, well-scoped bodies with consistent back pointers: `capturesCover_of_bodiesOK`, decidable:
+    `bodiesOKB`) — a capture missed by the code falsifies this hypothesis-free part of the statement; and
+    every required value without a producer is an initializer (`hcov`, discharged from the success of
+    validation + clone by `C18_cover_of_clone`, composed in `C18_extract_eval`). -/
 theorem C18_eval {α : Type} {W : World} {fn : Bool} {g I O : List VId} {p : GId} {ns : List NId}
-    {ws : List VId} (F : Interp α) (env0 env1 : Env α)
+    {ws : List VId} (S : Sem α) (env0 env1 : Env α) (fz : List VId)
     (h : findSubgraph W fn g I O p = .ok (ns, ws))
-    (hS : SourceOK W p g) (hF : Local W p F)
+    (hS : SourceOK W p g) (hInit : ∀ u, W.isInit u = true → NotProducedIn W g u)
+    (hcap : ∀ n, n ∈ g → CapturesCover W p n)
     (hcov : ∀ u, Reach W p I O u → W.prod u = none → W.isInit u = true)
-    (hI : ∀ u, u ∈ I → env1 u = evalNodes W F g env0 u)
-    (hW : ∀ u, u ∈ ws → env1 u = evalNodes W F g env0 u) :
-    ∀ o, o ∈ O → evalNodes W F ns env1 o = evalNodes W F g env0 o := by
+    (hK : ∀ u, W.isInit u = true → env0 u = S.const u)
+    (hfz : ∀ u, u ∈ fz → u ∈ I)
+    (hI : ∀ u, u ∈ I → env1 u = evalTop S W g env0 u)
+    (hW : ∀ u, u ∈ ws → env1 u = S.const u) :
+    ∀ o, o ∈ O → evalRegion S W fz ns env1 o = evalTop S W g env0 o := by
   intro o ho
+  rw [evalRegion_eq, evalTop_eq]
+  have hI' : ∀ u, u ∈ I → env1 u = evalNodes W (S.interp W) g env0 u := by
+    intro u hu; rw [← evalTop_eq]; exact hI u hu
   have hord := (C18_order h hS.nodup).1
   have hkeep : ∀ n, n ∈ g → (decide (n ∈ ns) = true ↔ NeedN W p I O n) := by
     intro n _
@@ -236,14 +264,18 @@ theorem C18_eval {α : Type} {W : World} {fn : Bool} {g I O : List VId} {p : GId
     · exact Or.inl hoI
     · exact Or.inr (Reach.out ho hoI)
   rw [hord]
-  refine eval_agree_aux (fun n => decide (n ∈ ns)) env0 env1 hF hS hkeep hI g [] rfl ?_ o hgood
+  refine eval_agree_aux (fun n => decide (n ∈ ns)) fz env0 env1
+    (fun n hn => interp_localAt S (hcap n hn)) hS hkeep hfz hI' g [] rfl ?_ o hgood
   intro u hu hnp
-  simp only [List.filter_nil, evalNodes, List.foldl_nil]
+  simp only [List.filter_nil, evalNodesFz, List.foldl_nil]
   rcases hu with hu | hu
-  · exact hI u hu
+  · exact hI' u hu
   · cases hp : W.prod u with
     | none =>
-      exact hW u ((C18_inits h u).mpr ⟨hcov u hu hp, Or.inr hu⟩)
+      have hinit : W.isInit u = true := hcov u hu hp
+      rw [hW u ((C18_inits h u).mpr ⟨hinit, Or.inr hu⟩)]
+      rw [evalNodes_not_produced _ _ (hInit u hinit)]
+      exact (hK u hinit).symm
     | some m =>
       exfalso
       have hm : m ∈ ns := (C18_nodes_exact h m).mpr ⟨u, hu, hp⟩
@@ -258,7 +290,8 @@ theorem extract_ok {W : World} {T : Target} {ins outs : List Arg} {view : View}
     ∃ p inited m', (∃ o rest, view.outputs = o :: rest ∧ W.graphOf o = some p) ∧
       findSubgraph W (T.kind == Kind.function) T.nodes view.inputs view.outputs p = .ok (view.nodes, inited) ∧
       (∀ v, v ∈ view.inits → v ∈ inited) ∧
-      cloneG [] (.mk 0 view.inputs view.inits view.outputs (view.nodes.map W.nodeD)) = .ok m' := by
+      cloneG [] (.mk 0 view.inputs view.inits view.outputs (view.nodes.map W.nodeD)) = .ok m' ∧
+      (∃ im, viewInits W inited [] = .ok im ∧ view.inits = im.map (·.2)) := by
   unfold extract at h
   simp only [] at h
   split at h
@@ -279,7 +312,7 @@ theorem extract_ok {W : World} {T : Target} {ins outs : List Arg} {view : View}
             · cases h
             · rename_i m' hclone
               cases h
-              refine ⟨parent, inited, m', ⟨o0, rest, hout, hpar⟩, ?_, ?_, hclone⟩
+              refine ⟨parent, inited, m', ⟨o0, rest, hout, hpar⟩, ?_, ?_, hclone, ⟨im, him, rfl⟩⟩
               · exact hfind
               · intro v hv
                 rcases viewInits_mem inited [] im him v hv with h' | h'
@@ -339,14 +372,176 @@ theorem C18_raises_of_uncovered {W : World} {T : Target} {ins outs : List Arg} {
       ((∀ u, Reach W p view.inputs view.outputs u → ∀ n, n ∈ view.nodes →
           ∀ b, b ∈ (W.nodeD n).bodies → ¬ DefInG b u) →
         ∀ u, Reach W p view.inputs view.outputs u → W.prod u = none → W.isInit u = true) := by
-  obtain ⟨p, inited, m', hp, hfind, _, hclone⟩ := extract_ok h
+  obtain ⟨p, inited, m', hp, hfind, _, hclone, _⟩ := extract_ok h
   exact ⟨p, hp, fun hscope => C18_cover_of_clone hfind hinit hclone hprod hscope⟩
 
-/-- **C18_captures_exact**: `analyze_implicit_usage(g)` (with the D34 fix) has an entry exactly for the graphs
-    nested in `g` at any depth, and the entry of graph `k` holds exactly the values `v` for which there is a
-    node, in `k` itself or in a graph nested in `k`, that has `v` as an input while `v` belongs to none of the
-    graphs on the path from that node's graph out to `k` (`CapG`: used in `k` or deeper, defined outside). -/
-theorem C18_captures_exact (W : World) (g : GraphT) (k : GId) :
+theorem scope_of_B {W : World} {fn : Bool} {I O : List VId} {p : GId} {ns : List NId}
+    (h : scopeB W fn I O p ns = true) :
+    ∀ u, Reach W p I O u → ∀ n, n ∈ ns → ∀ b, b ∈ (W.nodeD n).bodies → ¬ DefInG b u := by
+  intro u hu n hn b hb hd
+  have hv := (C18_values_exact W fn I O p u).mpr (Or.inr hu)
+  have := List.all_eq_true.mp h u hv
+  simp only [Bool.or_eq_true, List.contains_eq_mem, decide_eq_true_eq] at this
+  rcases this with h1 | h1
+  · exact hu.not_mem h1
+  · have := List.all_eq_true.mp (List.all_eq_true.mp h1 n hn) b hb
+    simp only [List.contains_eq_mem, Bool.not_eq_eq_eq_not, Bool.not_true, decide_eq_false_iff_not] at this
+    exact this ((mem_defsG b u).mpr hd)
+
+theorem initNames_of_B {W : World} (h : initNamesB W = true) :
+    ∀ u u', W.isInit u = true → W.isInit u' = true → (W.val u).name = (W.val u').name → u = u' := by
+  intro u u' hu hu' hn
+  have hr : u < W.vals.length := by
+    apply Classical.byContradiction; intro hlt
+    rw [isInit_out_of_range (Nat.le_of_not_lt hlt)] at hu; cases hu
+  have hr' : u' < W.vals.length := by
+    apply Classical.byContradiction; intro hlt
+    rw [isInit_out_of_range (Nat.le_of_not_lt hlt)] at hu'; cases hu'
+  have := List.all_eq_true.mp (List.all_eq_true.mp h u (List.mem_range.mpr hr)) u' (List.mem_range.mpr hr')
+  simp only [hu, hu', hn, Bool.and_self, BEq.rfl, Bool.not_true, Bool.false_or, beq_iff_eq] at this
+  exact this
+
+/-- **C18_extract_eval** (composition): whenever the whole `extract` pipeline returns — argument checks,
+    region search, frontier validation, view construction, clone — the extracted graph computes the source's
+    values at the requested outputs, for every semantics `S` (nested graphs evaluated under the environment
+    of their enclosing scopes) and every environment of the extracted graph that holds the source's values
+    at its inputs and the constants at its initializers.  The extracted graph is run with its rewired
+    boundary inputs (`rewired`, D153) never overwritten.  `p` is the graph of the first requested output.
+    Hypotheses (all decidable, reported per generated case by the driver): `SourceOK`/`hInit` (`sourceOKB`),
+    `CapturesCover` (`bodiesOKB`), no required value is defined inside a graph nested in a kept node
+    (`hscope`), initializer names are pairwise distinct (`hnames`). -/
+theorem C18_extract_eval {α : Type} {W : World} {T : Target} {ins outs : List Arg} {view : View}
+    (S : Sem α) (env0 env1 : Env α) (h : extract W T ins outs = .ok view) :
+    ∃ p, (∃ o rest, view.outputs = o :: rest ∧ W.graphOf o = some p) ∧
+      (SourceOK W p T.nodes → (∀ u, W.isInit u = true → NotProducedIn W T.nodes u) →
+       (∀ n, n ∈ T.nodes → CapturesCover W p n) →
+       (∀ u, Reach W p view.inputs view.outputs u → ∀ n, n ∈ view.nodes →
+          ∀ b, b ∈ (W.nodeD n).bodies → ¬ DefInG b u) →
+       (∀ u u', W.isInit u = true → W.isInit u' = true → (W.val u).name = (W.val u').name → u = u') →
+       (∀ u, W.isInit u = true → env0 u = S.const u) →
+       (∀ u, u ∈ view.inputs → env1 u = evalTop S W T.nodes env0 u) →
+       (∀ u, u ∈ view.inits → env1 u = S.const u) →
+       ∀ o, o ∈ view.outputs →
+         evalRegion S W (rewired W view) view.nodes env1 o = evalTop S W T.nodes env0 o) := by
+  obtain ⟨p, inited, m', hp, hfind, hsub, hclone, im, him, hinits⟩ := extract_ok h
+  refine ⟨p, hp, ?_⟩
+  intro hS hInit hcap hscope hnames hK hI hW
+  have hinitOK : ∀ v, v ∈ inited → W.isInit v = true := fun v hv => ((C18_inits hfind v).mp hv).1
+  have hnodes : ∀ n, n ∈ view.nodes → n ∈ T.nodes := fun n hn => (C18_order hfind hS.nodup).2.subset hn
+  have hcov := C18_cover_of_clone hfind (fun v hv => hinitOK v (hsub v hv)) hclone
+    (fun n hn => hS.prodOut n (hnodes n hn)) hscope
+  have hcomplete := (viewInits_complete inited [] im him (by intro kv hkv; cases hkv)
+    (by
+      intro u u' hu hu' hn
+      have h1 : u ∈ inited := hu.resolve_right (by simp)
+      have h2 : u' ∈ inited := hu'.resolve_right (by simp)
+      exact hnames u u' (hinitOK u h1) (hinitOK u' h2) hn)).2
+  refine C18_eval S env0 env1 (rewired W view) hfind hS hInit hcap hcov hK ?_ hI ?_
+  · intro u hu; exact (List.mem_filter.mp hu).1
+  · intro u hu
+    apply hW u
+    rw [hinits]
+    exact hcomplete u hu
+
+/-- **C18_extract_unbounded_iff** (composition of the argument checks with `C18_raises_iff`): `extract` raises
+    "not properly bounded" exactly when the arguments pass the checks, there is a first output with an owning
+    graph `p`, and some input of a required node is neither a boundary input, nor an initializer, nor produced
+    by a node. -/
+theorem C18_extract_unbounded_iff (W : World) (T : Target) (ins outs : List Arg) :
+    extract W T ins outs = .error .unbounded ↔
+      checkArgs W T (valueMapping W T) (ins ++ outs) = .ok () ∧
+      ∃ o rest p, outs.map (resolveArg (valueMapping W T)) = o :: rest ∧ W.graphOf o = some p ∧
+        Uncovered W p (ins.map (resolveArg (valueMapping W T))) (outs.map (resolveArg (valueMapping W T))) := by
+  have hargs : ∀ (l : List Arg) e, checkArgs W T (valueMapping W T) l = .error e →
+      e = .notOwned ∨ e = .nameNotFound := by
+    intro l
+    induction l with
+    | nil => intro e h; simp [checkArgs] at h
+    | cons a t ih =>
+      intro e h
+      rw [checkArgs] at h
+      split at h
+      · rename_i e' he
+        cases h
+        cases a with
+        | obj v => simp only [checkArg] at he; split at he <;> simp_all
+        | name s => simp only [checkArg] at he; split at he <;> simp_all
+      · exact ih e h
+  unfold extract
+  simp only []
+  constructor
+  · intro h
+    split at h
+    · rename_i e he
+      cases h
+      rcases hargs _ _ he with h' | h' <;> cases h'
+    · rename_i hok
+      refine ⟨hok, ?_⟩
+      split at h
+      · cases h
+      · rename_i o0 rest hout
+        split at h
+        · cases h
+        · rename_i parent hpar
+          refine ⟨o0, rest, parent, hout, hpar, ?_⟩
+          split at h
+          · rename_i e he
+            cases h
+            exact (C18_raises_iff W _ T.nodes _ _ parent).1.mp he
+          · split at h
+            · rename_i e he
+              cases h
+              -- viewInits only raises initNoName
+              exfalso
+              have : ∀ (vs : List VId) (m : NameMap) e, viewInits W vs m = .error e → e = .initNoName := by
+                intro vs
+                induction vs with
+                | nil => intro m e h; simp [viewInits] at h
+                | cons v t ih =>
+                  intro m e h
+                  rw [viewInits] at h
+                  split at h
+                  · cases h; rfl
+                  · exact ih _ e h
+              cases this _ _ _ he
+            · split at h
+              · rename_i e he
+                cases h
+                exfalso
+                rcases cloneG_err _ _ _ he with h' | h' <;> cases h'
+              · cases h
+  · rintro ⟨hok, o0, rest, parent, hout, hpar, hunc⟩
+    rw [hok]
+    simp only []
+    rw [hout]
+    simp only [hpar]
+    rw [← hout]
+    rw [(C18_raises_iff W _ T.nodes _ _ parent).1.mpr hunc]
+
+/-- **C18_independent** (from C13): the last statement of `extract` is `graph_view.clone()`, i.e. C13's
+    `graphClone` with a fresh value map and `allow_outer_scope_values=False` applied to a `GraphView`.  For
+    every heap `w` of C13's model (objects = cells: values, nodes, graphs, type / shape objects, metadata
+    containers, attributes), every view cell `gv` in it — in particular the view `extract` builds, whatever
+    its inputs, outputs, nodes and initializers — and every run of that clone that returns `g'`:
+    every object the result owns at any depth is new (`C13_fresh`), every node input of the result is a new
+    value (`C13_closed`), and no pre-existing cell changed (`C13_clone_pure`).  The D153 post-processing then
+    only edits objects of the result (it moves uses from one new value to another and renames a new value;
+    `C13_frame` is the statement that such edits leave the original's cells unchanged).  Tensors are shared
+    by design and are not cells.  The C18 harness additionally compares the identity sets on the real objects. -/
+theorem C18_independent {w w' : Clone.World} {fuel gv g' : Nat} {gs : Clone.GraphS}
+    (_hview : w[gv]? = some (Clone.Cell.graph gs) ∧ gs.view = true)
+    (h : Clone.run (Clone.graphClone fuel false gv) w = (.ok g', w')) :
+    (∀ i, Clone.Owned w' g' i → w.length ≤ i ∧ i < w'.length) ∧
+    (∀ i, Clone.Owned w' g' i → ∀ n, w'[i]? = some (Clone.Cell.node n) →
+        ∀ v, some v ∈ n.inputs → w.length ≤ v ∧ v < w'.length) ∧
+    (∀ (i : Nat) (c : Clone.Cell), w[i]? = some c → w'[i]? = some c) := by
+  refine ⟨Clone.C13_fresh h, ?_, (Clone.C13_clone_pure h).1 rfl⟩
+  intro i hi n hn v hv
+  exact ((Clone.C13_closed h i hi).1 n hn).1 rfl v hv
+
+/-- path form of what `analyze_implicit_usage` records (helper; the property theorems below are stated against
+    the structural free variables) -/
+theorem captures_path (W : World) (g : GraphT) (k : GId) :
     (∀ v, v ∈ (analyze W g).get k ↔ ∃ n, n ∈ g.nodes ∧ ∃ b, b ∈ n.bodies ∧ CapG W [] b k v) ∧
     ((analyze W g).HasKey k ↔ ∃ n, n ∈ g.nodes ∧ ∃ b, b ∈ n.bodies ∧ NestedIn b k) := by
   unfold analyze
@@ -357,31 +552,43 @@ theorem C18_captures_exact (W : World) (g : GraphT) (k : GId) :
   · rw [(foldl_procN_spec W g.gid k 0 g.nodes []).2 k]
     simp [Usages.HasKey]
 
-/-- **C18_captures_complete**: every free variable of a nested graph is reported — if `s` is nested in `g` (at
-    any depth), `v` is an input of a node of `s` or of a graph nested in `s`, and neither `s` nor a graph
-    nested in `s` owns `v`, then `v` is in the entry of `s`. -/
+/-- **C18_captures_keys**: `analyze_implicit_usage(g)` (with the D34 fix) has an entry exactly for the graphs
+    nested in `g` at any depth (and none for `g` itself unless its id repeats below). -/
+theorem C18_captures_keys (W : World) (g : GraphT) (k : GId) :
+    (analyze W g).HasKey k ↔ ∃ n, n ∈ g.nodes ∧ ∃ b, b ∈ n.bodies ∧ NestedIn b k :=
+  (captures_path W g k).2
+
+/-- **C18_captures_complete**: every free variable of a nested graph is reported.  If `s` is nested in `g` (at
+    any depth), `v` is a free variable of `s` in the structural sense (`FreeOf`: read by a node of `s` or of a
+    graph nested in `s`; defined neither in `s` nor in a graph nested in `s`), and the back pointers are
+    consistent on the subtree of `s`, then `v` is in the entry of `s`. -/
 theorem C18_captures_complete (W : World) (g : GraphT) {n : NodeT} {b s : GraphT} {v : VId}
-    (hn : n ∈ g.nodes) (hb : b ∈ n.bodies) (hs : SubG b s) (hu : UsedInG s v)
-    (hfree : ∀ j, NestedIn s j → W.graphOf v ≠ some j) :
+    (hn : n ∈ g.nodes) (hb : b ∈ n.bodies) (hs : SubG b s) (hptr : BackPtrOK W s) (hfree : FreeOf s v) :
     v ∈ (analyze W g).get s.gid := by
-  rw [(C18_captures_exact W g s.gid).1 v]
+  have hno : ∀ j, NestedIn s j → W.graphOf v ≠ some j :=
+    fun j hj e => hfree.2 ((hptr v).mpr ⟨j, hj, e⟩)
+  rw [(captures_path W g s.gid).1 v]
   obtain ⟨path, hp⟩ := capG_lift (W := W) hs
   refine ⟨n, hn, b, hb, hp [] s.gid v ?_⟩
-  exact capG_of_used W v s.gid s (path ++ []) hu hfree (addsTo_self (hfree s.gid NestedIn.self))
+  exact capG_of_used W v s.gid s (path ++ []) hfree.1 hno (addsTo_self (hno s.gid NestedIn.self))
 
-/-- **C18_captures_sound**: everything reported for `k` is used in or below a graph nested in `g` whose id is
-    `k`, and that graph does not own it.  (With pairwise distinct graph ids this graph is *the* graph `k`.
-    That no graph nested deeper in it owns the value either — the full "defined outside" — needs the scoping
-    assumption that a value is only used inside the graph that owns it; that part is checked by the oracle
-    only, see harness/c18.py.) -/
-theorem C18_captures_sound (W : World) (g : GraphT) {k : GId} {v : VId}
+/-- **C18_captures_sound**: everything reported is a free variable.  If uses are scoped by owner and graph ids
+    do not repeat along a path (`scopedGB`, decidable: every value a node reads is owned by the node's graph,
+    one of its ancestors, or a graph outside `g`) and the back pointers are consistent, then a value in the
+    entry `k` is a free variable (`FreeOf`, structural) of a graph `s` nested in `g` whose id is `k`. -/
+theorem C18_captures_sound (W : World) (g : GraphT) (all : List GId) {k : GId} {v : VId}
+    (hscoped : ∀ n b, n ∈ g.nodes → b ∈ n.bodies → scopedGB W all [] b = true)
+    (hptr : ∀ n b s, n ∈ g.nodes → b ∈ n.bodies → SubG b s → BackPtrOK W s)
     (h : v ∈ (analyze W g).get k) :
-    ∃ n b s, n ∈ g.nodes ∧ b ∈ n.bodies ∧ SubG b s ∧ s.gid = k ∧ UsedInG s v ∧ W.graphOf v ≠ some k := by
-  obtain ⟨n, hn, b, hb, hcap⟩ := ((C18_captures_exact W g k).1 v).mp h
-  obtain ⟨h1, h2⟩ := capG_sound hcap
-  rcases h1 with h1 | ⟨s, hs, hk, hu⟩
-  · cases h1
-  · exact ⟨n, b, s, hn, hb, hs, hk, hu, h2⟩
+    ∃ n b s, n ∈ g.nodes ∧ b ∈ n.bodies ∧ SubG b s ∧ s.gid = k ∧ FreeOf s v := by
+  obtain ⟨n, hn, b, hb, hcap⟩ := ((captures_path W g k).1 v).mp h
+  obtain ⟨_, hrec⟩ := capG_free hcap (hscoped n b hn hb)
+  rcases hrec with ⟨hk, _⟩ | ⟨s, hs, hk, hu, hno⟩
+  · cases hk
+  · refine ⟨n, b, s, hn, hb, hs, hk, hu, ?_⟩
+    intro hd
+    obtain ⟨j, hj, e⟩ := (hptr n b s hn hb hs v).mp hd
+    exact hno j ((mem_gidsG s j).mpr hj) e
 
 /-! ## non-vacuity: a concrete world on which every hypothesis and every branch is realised
 
@@ -414,71 +621,66 @@ example : ¬ Uncovered exW 0 [0] [3] := by
 /-- a value captured by the nested graph is required although it is no direct input of a kept node -/
 example : Reach exW 0 [2] [3] 0 :=
   ((C18_values_exact exW false [2] [3] 0 0).mp (by decide +kernel)).resolve_left (by decide)
-example : UsedInG (.mk 1 [] [] [4] [.mk [some 0] [4] []]) 0 :=
-  ((C18_external_exact exW 0 _ 0).mp (by decide +kernel)).1
+/-- the nested graph of node 1 -/
+def exBody : GraphT := .mk 1 [] [] [4] [.mk [some 0] [4] []]
 
-/-- an interpretation that really reads its inputs and captured values: sum of what the node needs -/
-def exF : Interp Nat := fun n e _ =>
-  (((exW.nodeD n).ins ++ captured exW 0 (exW.nodeD n)).map e).sum
+/-- the decidable hypothesis checkers hold on the example (so `BodiesOK`, `SourceOK`, `BackPtrOK` are
+    satisfiable together) -/
+example : bodiesOKB exW 0 0 = true ∧ bodiesOKB exW 0 1 = true ∧ bodiesOKB exW 0 2 = true := by decide
+example : sourceOKB exW 0 [0, 1] = true := by decide
+theorem exBody_ptr : BackPtrOK exW exBody :=
+  backPtrB_sound (by decide) (fun _ hv => graphOf_out_of_range hv)
+theorem exBody_notNested : ¬ NestedIn exBody 0 := fun h => by
+  have := (mem_gidsG exBody 0).mpr h
+  revert this; decide
+/-- C18_external_free: `x` (0) is a free variable of the nested graph, and that is what the code collects -/
+example : FreeOf exBody 0 :=
+  (C18_external_free exW 0 exBody 0 exBody_ptr exBody_notNested).mp (by decide)
+theorem exW_ptrs : ∀ n, BodiesPtrOK exW 0 n := by
+  intro n
+  match n with
+  | 0 => exact (bodiesOK_of_B (by decide)).ptr
+  | 1 => exact (bodiesOK_of_B (by decide)).ptr
+  | 2 => exact (bodiesOK_of_B (by decide)).ptr
+  | n + 3 =>
+    intro b hb
+    have : exW.nodeD (n + 3) = .mk [] [] [] := by
+      simp [World.nodeD, exW]
+    rw [this] at hb
+    simp at hb
+/-- C18_nodes_exact_free: node 0 is required for `b` from `x` by the structural definition -/
+example : NeedNS exW [0] [3] 0 :=
+  (C18_nodes_exact_free (W := exW) (fn := false) (g := [0, 1]) (I := [0]) (O := [3]) (p := 0)
+    (ns := [0, 1]) (ws := [1]) (by decide +kernel) exW_ptrs 0).mp (by decide)
 
-theorem exF_local : Local exW 0 exF := by
-  intro n e e' h o
-  unfold exF
-  congr 1
-  apply List.map_congr_left
+/-- a semantics that really uses its arguments and the denotations of its graph attributes -/
+def exS : Sem Nat :=
+  { op := fun _ bodies args _ => (args.map (fun a => a.getD 0)).sum + ((bodies.map (fun f => (f []).sum)).sum),
+    const := fun _ => 7 }
+
+theorem exW_sourceOK : SourceOK exW 0 [0, 1] ∧ (∀ u, exW.isInit u = true → NotProducedIn exW [0, 1] u) :=
+  sourceOK_of_B (by decide)
+
+theorem exW_cover : ∀ n, n ∈ [0, 1] → CapturesCover exW 0 n := by
+  intro n hn
+  have : n = 0 ∨ n = 1 := by simpa using hn
+  rcases this with rfl | rfl
+  · exact capturesCover_of_bodiesOK (bodiesOK_of_B (by decide))
+  · exact capturesCover_of_bodiesOK (bodiesOK_of_B (by decide))
+
+theorem exW_init_eq : ∀ u, exW.isInit u = true → u = 1 := by
   intro u hu
-  exact h u (needs_iff.mpr (List.mem_append.mp hu))
+  match u, hu with
+  | 0, hu | 2, hu | 3, hu | 4, hu => revert hu; decide
+  | 1, _ => rfl
+  | u + 5, hu => rw [isInit_out_of_range (by simp [exW])] at hu; cases hu
 
-theorem exW_sourceOK : SourceOK exW 0 [0, 1] := by
-  refine ⟨by decide, ?_, ?_, ?_⟩
-  · intro n hn o ho
-    have : n = 0 ∨ n = 1 := by simpa using hn
-    rcases this with rfl | rfl
-    · have : o = 2 := by simpa [World.nodeD, exW] using ho
-      subst this; decide
-    · have : o = 3 := by simpa [World.nodeD, exW] using ho
-      subst this; decide
-  · intro v n h
-    match v, h with
-    | 0, h | 1, h => simp [World.prod, World.val, exW] at h
-    | 2, h =>
-      have : n = 0 := by simpa [World.prod, World.val, exW] using h.symm
-      subst this; decide
-    | 3, h =>
-      have : n = 1 := by simpa [World.prod, World.val, exW] using h.symm
-      subst this; decide
-    | 4, h =>
-      have : n = 2 := by simpa [World.prod, World.val, exW] using h.symm
-      subst this; decide
-    | v + 5, h => simp [World.prod, World.val, exW] at h
-  · refine ⟨?_, ?_, trivial⟩
-    · intro u hu
-      have := needs_iff.mp hu
-      have : u ∈ [0, 1] := by
-        rcases this with h | h
-        · exact h
-        · have hc : captured exW 0 (exW.nodeD 0) = [] := by decide
-          rw [hc] at h; cases h
-      have : u = 0 ∨ u = 1 := by simpa using this
-      rcases this with rfl | rfl <;> (intro m hm; have : m = 0 ∨ m = 1 := by simpa using hm
-                                      rcases this with rfl | rfl <;> decide)
-    · intro u hu
-      have := needs_iff.mp hu
-      have : u = 2 ∨ u = 0 := by
-        rcases this with h | h
-        · left; simpa [World.nodeD, exW, NodeT.ins] using h
-        · right
-          have hc : captured exW 0 (exW.nodeD 1) = [0] := by decide
-          rw [hc] at h
-          simpa using h
-      rcases this with rfl | rfl <;> (intro m hm; have : m = 1 := by simpa using hm
-                                      subst this; decide)
-
-/-- C18_eval with all its hypotheses met at once (boundary input `x`, output `b`) -/
-example (env0 : Env Nat) : ∀ o, o ∈ [3] →
-    evalNodes exW exF [0, 1] (evalNodes exW exF [0, 1] env0) o = evalNodes exW exF [0, 1] env0 o :=
+/-- C18_eval with all its hypotheses met at once (boundary input `x`, output `b`); the source environment
+    holds the constant at the initializer -/
+example (env0 : Env Nat) (h0 : env0 1 = 7) : ∀ o, o ∈ [3] →
+    evalRegion exS exW [] [0, 1] (evalTop exS exW [0, 1] env0) o = evalTop exS exW [0, 1] env0 o :=
   C18_eval (W := exW) (fn := false) (g := [0, 1]) (I := [0]) (O := [3]) (p := 0) (ns := [0, 1]) (ws := [1])
-    exF env0 _ (by decide +kernel) exW_sourceOK exF_local
+    exS env0 _ [] (by decide +kernel) exW_sourceOK.1 exW_sourceOK.2 exW_cover
     (by
       intro u hu hp
       have hv := (C18_values_exact exW false [0] [3] 0 u).mpr (Or.inr hu)
@@ -490,7 +692,16 @@ example (env0 : Env Nat) : ∀ o, o ∈ [3] →
       · exact absurd hp (by decide)
       · exact absurd hp (by decide)
       · decide)
-    (fun _ _ => rfl) (fun _ _ => rfl)
+    (by intro u hu; rw [exW_init_eq u hu]; exact h0)
+    (by intro u hu; cases hu)
+    (fun _ _ => rfl)
+    (by
+      intro u hu
+      have : u = 1 := by simpa using hu
+      subst this
+      have hnp : NotProducedIn exW [0, 1] 1 := exW_sourceOK.2 1 (by decide)
+      rw [evalTop_eq, evalNodes_not_produced _ _ hnp]
+      exact h0)
 
 def exT : Target := { kind := .graph, gid := some 0, inputs := [0], inits := [("w", 1)], nodes := [0, 1] }
 
@@ -514,49 +725,82 @@ example : ∀ u, Reach exW 0 [2, 0] [3] u → exW.prod u = none → exW.isInit u
       subst this
       have : o = 3 := by simpa [World.nodeD, exW] using ho
       subst this; decide)
-    (by
-      intro u hu n hn b hb hd
-      have hv := (C18_values_exact exW false [2, 0] [3] 0 u).mpr (Or.inr hu)
-      have hfin : (walkFinal exW false [2, 0] [3] 0).valsV = [2, 0, 3] := by decide +kernel
-      rw [hfin] at hv
-      have hu3 : u = 3 := by
-        have : u = 2 ∨ u = 0 ∨ u = 3 := by simpa using hv
-        rcases this with rfl | rfl | rfl
-        · exact absurd (by simp) hu.not_mem
-        · exact absurd (by simp) hu.not_mem
-        · rfl
-      subst hu3
-      have : n = 1 := by simpa using hn
-      subst this
-      have hb' : b = .mk 1 [] [] [4] [.mk [some 0] [4] []] := by simpa [World.nodeD, exW] using hb
-      subst hb'
-      cases hd with
-      | input h => simp at h
-      | init h => simp at h
-      | @node _ nd _ hn' hdn =>
-        have : nd = NodeT.mk [some 0] [4] [] := by simpa using hn'
-        subst this
-        cases hdn with
-        | out h => simp at h
-        | nested h _ => simp at h)
+    (scope_of_B (fn := false) (by decide +kernel))
 
-/-- C18_captures_exact: the nested graph 1 of node 1 captures `x` (value 0), and nothing else -/
+/-- C18_extract_eval with all its hypotheses met: region cut at `a`, `x` given by name, output `b` -/
+example (env0 : Env Nat) (h0 : env0 1 = 7) : ∀ o, o ∈ [3] →
+    evalRegion exS exW [] [1] (evalTop exS exW [0, 1] env0) o = evalTop exS exW [0, 1] env0 o := by
+  have hx : extract exW exT [.obj 2, .name "x"] [.name "b"]
+      = .ok { inputs := [2, 0], outputs := [3], nodes := [1], inits := [] } := by decide +kernel
+  obtain ⟨p, ⟨o, rest, ho, hp⟩, himp⟩ := C18_extract_eval exS env0 (evalTop exS exW [0, 1] env0) hx
+  have hp0 : p = 0 := by
+    simp only [List.cons.injEq] at ho
+    obtain ⟨rfl, _⟩ := ho
+    have : exW.graphOf 3 = some 0 := by decide
+    rw [this] at hp; exact (Option.some.inj hp).symm
+  subst hp0
+  have hrw : rewired exW { inputs := [2, 0], outputs := [3], nodes := [1], inits := [] } = [] := by decide
+  rw [hrw] at himp
+  exact himp exW_sourceOK.1 exW_sourceOK.2 exW_cover (scope_of_B (fn := false) (by decide +kernel))
+    (initNames_of_B (by decide)) (by intro u hu; rw [exW_init_eq u hu]; exact h0) (fun _ _ => rfl)
+    (by intro u hu; cases hu)
+
+/-- C18_extract_unbounded_iff: nothing given as boundary -/
+example : Uncovered exW 0 [] [3] :=
+  (((C18_extract_unbounded_iff exW exT [] [.name "b"]).mp (by decide +kernel)).2).elim
+    (fun o h => by
+      obtain ⟨rest, p, ho, hp, hu⟩ := h
+      have ho' : o = 3 := by
+        have : List.map (resolveArg (valueMapping exW exT)) [Arg.name "b"] = [3] := by decide
+        rw [this] at ho; simp only [List.cons.injEq] at ho; exact ho.1.symm
+      subst ho'
+      have : exW.graphOf 3 = some 0 := by decide
+      rw [this] at hp
+      cases hp
+      have h1 : List.map (resolveArg (valueMapping exW exT)) [] = [] := rfl
+      have h2 : List.map (resolveArg (valueMapping exW exT)) [Arg.name "b"] = [3] := by decide
+      rw [h1, h2] at hu
+      exact hu)
+
+/-- the nested graph 1 of node 1 captures `x` (value 0), and nothing else -/
 example : (analyze exW (.mk 0 [0] [1] [3] exW.nodes)).get 1 = [0] := by decide
+def exRoot : GraphT := .mk 0 [0] [1] [3] exW.nodes
 /-- hypotheses of C18_captures_complete are met by the nested graph of node 1 and the value `x` -/
-example : 0 ∈ (analyze exW (.mk 0 [0] [1] [3] exW.nodes)).get 1 :=
-  C18_captures_complete exW (.mk 0 [0] [1] [3] exW.nodes) (n := .mk [some 2, none] [3] [.mk 1 [] [] [4] [.mk [some 0] [4] []]])
-    (b := .mk 1 [] [] [4] [.mk [some 0] [4] []]) (s := .mk 1 [] [] [4] [.mk [some 0] [4] []])
-    (by simp [exW]) (by simp) SubG.self
-    (UsedInG.node (n := .mk [some 0] [4] []) (by simp) (UsedInN.direct (by simp)))
+example : 0 ∈ (analyze exW exRoot).get 1 :=
+  C18_captures_complete exW exRoot (n := .mk [some 2, none] [3] [exBody]) (b := exBody) (s := exBody)
+    (by simp [exRoot, exW, exBody]) (by simp) SubG.self exBody_ptr
+    ((C18_external_free exW 0 exBody 0 exBody_ptr exBody_notNested).mp (by decide))
+/-- hypotheses of C18_captures_sound are met on the example (scoping by owner + consistent back pointers) -/
+example : ∃ n b s, n ∈ exRoot.nodes ∧ b ∈ n.bodies ∧ SubG b s ∧ s.gid = 1 ∧ FreeOf s 0 :=
+  C18_captures_sound exW exRoot [1] (k := 1) (v := 0)
     (by
-      intro j hj
-      cases hj with
-      | self => decide
-      | @deeper _ c nd _ hn' hc' _ =>
-        have : nd = NodeT.mk [some 0] [4] [] := by simpa using hn'
+      intro n b hn hb
+      have hn' : n = .mk [some 0, some 1] [2] [] ∨ n = .mk [some 2, none] [3] [exBody] ∨
+          n = .mk [some 0] [4] [] := by simpa [exRoot, exW, exBody] using hn
+      rcases hn' with rfl | rfl | rfl
+      · simp at hb
+      · have : b = exBody := by simpa using hb
+        subst this; decide
+      · simp at hb)
+    (by
+      intro n b s hn hb hs
+      have hn' : n = .mk [some 0, some 1] [2] [] ∨ n = .mk [some 2, none] [3] [exBody] ∨
+          n = .mk [some 0] [4] [] := by simpa [exRoot, exW, exBody] using hn
+      have hbe : b = exBody := by
+        rcases hn' with rfl | rfl | rfl
+        · simp at hb
+        · simpa using hb
+        · simp at hb
+      subst hbe
+      cases hs with
+      | self => exact exBody_ptr
+      | @deeper _ c _ nd hn2 hc2 _ =>
+        have : nd = NodeT.mk [some 0] [4] [] := by simpa [exBody] using hn2
         subst this
-        simp at hc')
-example : CapG exW [] (.mk 1 [] [] [4] [.mk [some 0] [4] []]) 1 0 :=
-  CapG.here (n := .mk [some 0] [4] []) (by simp) (by simp) (by unfold AddsTo; decide)
+        simp at hc2)
+    (by decide)
+example : (analyze exW exRoot).HasKey 1 :=
+  (C18_captures_keys exW exRoot 1).mpr ⟨.mk [some 2, none] [3] [exBody], by simp [exRoot, exW, exBody],
+    exBody, by simp, NestedIn.self⟩
 
 end IrVerif.Extract
